@@ -353,8 +353,8 @@ func c20Check(c *C20Case, rec *Rec, scen string, events []streamEvent, ret strea
 	}
 	if !sat {
 		rec.Count("unsat_streams", 1)
-		if nbRecv != 1 || recvs[0].res.Status != solver.Unsat {
-			rec.Viol(scen, "protocol(unsat-stream)", "stream", "unsatisfiable problem: expected exactly one Unsat result on the stream, got %d results", nbRecv)
+		if nbRecv > 1 || (nbRecv == 1 && recvs[0].res.Status != solver.Unsat) {
+			rec.Viol(scen, "protocol(unsat-stream)", "stream", "unsatisfiable problem: expected at most one result, with status Unsat, on the stream; got %d results", nbRecv)
 		}
 		if ret.res.Status != solver.Unsat {
 			rec.Viol(scen, "wrong-verdict", "return", "unsatisfiable problem but the call returned %s", StatusName(ret.res.Status))
